@@ -66,6 +66,21 @@ def sequential_items(rng, tier):
     rng.shuffle(calls)
     if tier == "quick":
         calls = calls[:2500]
+    # a function whose only effect is its read-modify-write (a ticket counter, a try-lock) is called twice with the same
+    # arguments by one caller: two calls, two updates (a compiler that is told such a function is pure merges them)
+    base = len(funcs)
+    funcs.append({"type": ty(["i32"], ["i32"]), "locals": [], "body": [["local.get", 0], ["i32.const", b32(1)], ["i32.atomic.rmw.add", 2, 0], ["end"]]})                 # ticket
+    funcs.append({"type": ty(["i32"], ["i32"]), "locals": [], "body": [["local.get", 0], ["i32.const", b32(0)], ["i32.const", b32(1)], ["i32.atomic.rmw.cmpxchg", 2, 0], ["end"]]})   # try-lock: 0 = got it
+    funcs.append({"type": ty(["i32"], ["i64"]), "locals": [], "body": [["local.get", 0], ["i64.const", b64(5)], ["i64.atomic.rmw.xchg", 3, 0], ["end"]]})
+    for k_, (callee, rt, comb) in enumerate(((base, "i32", "i32.sub"), (base + 1, "i32", "i32.add"), (base + 2, "i64", "i64.add"))):
+        rtw = "i32" if rt == "i32" else "i64"
+        funcs.append({"type": ty(["i32"], [rtw]), "locals": [], "body": [["local.get", 0], ["call", callee], ["local.get", 0], ["call", callee], [comb], ["end"]]})
+        exports.append({"name": "twice%d" % k_, "kind": "func", "idx": len(funcs) - 1})
+    tail = []
+    for rep in range(3):
+        for k_ in range(3):
+            tail.append({"op": "call", "inst": 1, "export": "twice%d" % k_, "args": [val("i32", 800 + 16 * k_)]})
+    calls = calls + tail
     mod = {"types": types, "funcs": funcs, "exports": exports + [{"name": "memory", "kind": "memory", "idx": 0}],
            "memory": {"min": 1, "max": 1},
            "data": [{"mode": "active", "offset": ["i32.const", b32(56)], "bytes": [0xA0 + (i % 16) + 1 if i % 8 != 7 else 0xA8 for i in range(120)]}]}
